@@ -373,8 +373,10 @@ class VolumeMesh(Mesh):
                     keys_cell[nextC] = kc
                     iC = nextC
                     p2 = [x for x in self.mesh.cells[iC] if x not in (A,B,p2)][0]
-                self._adjE2C[e].sort(key= lambda c : keys_cell[c])
-                self._adjE2F[e].sort(key= lambda f : keys_face[f])
+                if all(c in keys_cell for c in self._adjE2C[e]) and all(f in keys_face for f in self._adjE2F[e]):
+                    # a rotational order exists only if the walks reached every cell around the edge
+                    self._adjE2C[e].sort(key= lambda c : keys_cell[c])
+                    self._adjE2F[e].sort(key= lambda f : keys_face[f])
 
         ##### Faces - Cells #####
 
